@@ -8,7 +8,6 @@
    A model value WILD (-2) stands for a part the model leaves open (zstd) and matches anything;
    `OkOrErr` is the verdict of a parser whose acceptance depends on HashMap iteration order
    (HuffmanTree::deserialize on a table that is not prefix free). *)
-From Coq Require Import Uint63.
 From ZV.Common Require Import Base Run.
 From ZV.C15 Require Import Model ModelBlob ModelIo2 ModelHuff ModelEntropy ModelFiles ModelB64.
 Open Scope N_scope.
@@ -24,19 +23,10 @@ Inductive verdict : Type :=
 
 (* contextual Huffman encoders parsed once per case file: (key, encoder) *)
 Definition cenv_t : Type := list (N * HC.cenc).
-(* the serialized encoders arrive packed, 7 bytes per primitive integer (little endian), with their
-   length: coqc reads primitive integer literals an order of magnitude faster than N literals *)
-Fixpoint le_bytes (k : nat) (w : N) : list N :=
-  match k with O => [] | S k' => w mod 256 :: le_bytes k' (w / 256) end.
-Definition int_bytes (i : int) : list N := le_bytes 7 (Z.to_N (Uint63.to_Z i)).
-Definition unpack_words (len : N) (ws : list int) : list N :=
-  firstn (N.to_nat len) (flat_map int_bytes ws).
-Fixpoint mk_cenv (l : list (N * N * list int)) : cenv_t :=
-  match l with
-  | [] => []
-  | (k, len, ws) :: rest =>
-      match cenc_of_aux (unpack_words len ws) with Some e => (k, e) :: mk_cenv rest | None => mk_cenv rest end
-  end.
+(* The serialized encoders arrive packed, 7 bytes per primitive-integer literal (coqc reads those an order
+   of magnitude faster than N literals).  The unpacking (`mk_cenv`, which needs Coq's Uint63 library and its
+   axiomatised specification) is defined in the header of every generated case file, NOT here: nothing the
+   theorems depend on imports primitive integers. *)
 Definition cenv_get (env : cenv_t) (aux : list N) : option HC.cenc :=
   match aux with
   | k :: _ => match find (fun p => fst p =? k) env with Some p => Some (snd p) | None => None end
